@@ -42,6 +42,7 @@ type QVar struct{ Name, Type string }
 type GhostDef struct {
 	Name string
 	Expr *E
+	Var  bool // `ghost var x = e`: mutable, loop-carried ghost state (re-assigned by `after call K: ghost x = e`)
 }
 
 func (e *E) String() string {
@@ -701,7 +702,13 @@ func (cs *Contracts) loadFile(file string) error {
 			if err != nil {
 				return fail(err)
 			}
-			cur.Ghost = append(cur.Ghost, GhostDef{Name: strings.TrimSpace(rest[:i]), Expr: ge})
+			gn := strings.TrimSpace(rest[:i])
+			isVar := false
+			if strings.HasPrefix(gn, "var ") {
+				isVar = true
+				gn = strings.TrimSpace(gn[4:])
+			}
+			cur.Ghost = append(cur.Ghost, GhostDef{Name: gn, Expr: ge, Var: isVar})
 		case "preserves":
 			c, err := mk("requires", rest, 0)
 			if err != nil {
